@@ -86,7 +86,7 @@ MANIFEST = {
             "behind and every ready-set of a poll batch (one job per set) no event is dropped, user data matches, "
             "one-shot sources fire once, quit returns the exact code; (b) one job per source kind (descriptor, timer, "
             "signal, path, pid, task) x driving mode (dispatch / blocking loop ended by quit or by stopping all) x "
-            "owner paused x one-shot: the event reaches exactly the registering module while RUNNING",
+            "owner paused x one-shot: the event reaches exactly the registering module while RUNNING; two modules' events in one poll batch where the first handler pauses / stops / deregisters the other or its source; several messages queued for a one-shot subscription (also re-subscribed from the handler); a module leaving while PAUSED next to a RUNNING one; descriptors reported with EPOLLHUP",
     "note": "ready-sets, kinds and modes are per-job constants; errno and quit code are free; kernel = OS model (epoll "
             "level-triggered + EPOLLONESHOT, timerfd/signalfd/inotify/pidfd/eventfd as slots); task = deferred call",
 }
